@@ -7,6 +7,7 @@ package main
 import (
 	"archive/tar"
 	"bytes"
+	"context"
 	"crypto/sha256"
 	"encoding/hex"
 	"encoding/json"
@@ -71,6 +72,12 @@ type env struct {
 	cfgName string
 	n       int
 }
+
+// far above what a build takes on a loaded machine (seconds)
+const buildTimeout = 4 * time.Minute
+
+// builds that did not end; after the first one the matrix stops (one witness is enough, every further one costs the timeout)
+var buildsTimedOut int
 
 func sha(b []byte) string { s := sha256.Sum256(b); return hex.EncodeToString(s[:]) }
 
@@ -166,7 +173,11 @@ func (e *env) run(c cell) (res buildResult) {
 		quoted[i] = "'" + strings.ReplaceAll(a, "'", `'\''`) + "'"
 	}
 	script := fmt.Sprintf("umask %03o; exec '%s' %s", c.Umask, e.apko, strings.Join(quoted, " "))
-	cmd := exec.Command("/bin/sh", "-c", script)
+	// a build that never ends (a blocked goroutine group, say) is a failed build, not a hung harness
+	ctx, cancel := context.WithTimeout(context.Background(), buildTimeout)
+	defer cancel()
+	cmd := exec.CommandContext(ctx, "/bin/sh", "-c", script)
+	cmd.WaitDelay = 5 * time.Second
 	cmd.Dir = cwd
 	cmd.Env = envv
 	res.Cmd = fmt.Sprintf("cd '%s' && env -i %s /bin/sh -c \"%s\"", cwd, strings.Join(quoteEnv(envv), " "), script)
@@ -175,6 +186,11 @@ func (e *env) run(c cell) (res buildResult) {
 	t0 := time.Now()
 	err := cmd.Run()
 	res.Seconds = time.Since(t0).Seconds()
+	if ctx.Err() != nil {
+		buildsTimedOut++
+		res.Err = fmt.Sprintf("the build did not end within %v: %s", buildTimeout, tail(stderr.String(), 1500))
+		return res
+	}
 	if err != nil {
 		res.Err = fmt.Sprintf("%v: %s", err, tail(stderr.String(), 1500))
 		return res
